@@ -180,6 +180,17 @@ CHECKS = {
         design_ref="3 C01",
         technique="z3 queries over type domains derived from the emitted DDL; CrossHair (z3) on real functions with symbolic strings/ints; replay on the real stack",
     ),
+    "C09": dict(
+        category="translation_validation",
+        text="Translation validation of the metadata SQL: the CASE expressions of the _fs_columns_snowflake view and of the DESCRIBE TABLE query, the "
+        "filters of the SHOW queries and the join conditions to the side tables are evaluated by z3 (strings, integers, three-valued logic) on "
+        "symbolic catalog rows and compared with Snowflake's vocabulary, with describe_as_rowtype and with the statement's scope; the bookkeeping "
+        "of comments and VARCHAR lengths (what is written, under which key, octet-length arithmetic) is driven through the real transforms / "
+        "execute with symbolic lengths and symbolic choices of statement and qualification.  DuckDB's own catalog contents are trusted; five "
+        "defects found here are listed findings.",
+        design_ref="3 C09",
+        technique="z3 (strings + LIA) evaluation of the SQL text the real code holds / emits; CrossHair (z3) on the real bookkeeping code over an engine stub; replay on the real stack",
+    ),
 }
 
 NOT_YET = "not claimed yet: check not built in this round (see DESIGN.md 7 for the order of work)"
